@@ -44,7 +44,6 @@ const (
 
 	kfAffinityTwoDomains = "self-affinity-bootstrap-leaves-node-undetermined"
 	kfNilSelector        = "required-affinity-with-nil-selector-follows-any-pod"
-	kfSpreadFilter       = "spread-node-filter-drops-compatibility-options"
 )
 
 var allZones = []string{"z1", "z2", "z3"}
@@ -804,11 +803,9 @@ func short(k string) string {
 }
 
 // findingShape recognises the exact input shapes of the known findings of this property (see the report):
-//   - a REQUIRED pod-affinity term with a nil label selector on a pod that was placed (F12);
-//   - a DoNotSchedule spread constraint honouring node affinity on a pod that restricts a well-known label
-//     (zone) itself, while another pod its selector selects was placed on a new node (F13);
+//   - a REQUIRED pod-affinity term with a nil label selector on a pod that was placed (nil-selector finding);
 //   - REQUIRED pod-affinity on a non-hostname key whose selector selects the pod itself, with two such pods
-//     on different new nodes that do not share one determined domain (F11).
+//     on different new nodes that do not share one determined domain (bootstrap finding).
 func findingShape(sc sCase, newDomains map[string]map[string][]string) string {
 	placedNode := func(p sPod) (string, bool) { n, ok := sc.Placement[p.NS+"/"+p.Name]; return n, ok }
 	for _, sp := range sc.Batch {
@@ -818,23 +815,6 @@ func findingShape(sc sCase, newDomains map[string]map[string][]string) string {
 		for _, t := range sp.Aff {
 			if !t.Preferred && t.Sel.Nil {
 				return kfNilSelector
-			}
-		}
-	}
-	for _, sp := range sc.Batch {
-		if _, ok := placedNode(sp); !ok {
-			continue
-		}
-		restricts := sp.NodeSel[zoneKey] != "" || len(sp.ZoneIn) > 0 || len(sp.ZoneNotIn) > 0
-		for _, c := range sp.Spread {
-			if c.Anyway || !restricts || (c.AffHonor != nil && !*c.AffHonor) {
-				continue
-			}
-			for _, other := range sc.Batch {
-				on, ok := placedNode(other)
-				if ok && strings.HasPrefix(on, "new-") && other.Name != sp.Name && other.NS == sp.NS && selMatches(c.Sel, other.Labels) {
-					return kfSpreadFilter
-				}
 			}
 		}
 	}
@@ -894,4 +874,34 @@ func selMatches(s sSel, labels map[string]string) bool {
 		}
 	}
 	return true
+}
+
+// corpus: hand-written scenarios run before the generated ones. The first two are the witnesses of the spread
+// node-filter defect fixed in /repo by 63807b97c (TopologyNodeFilter.Matches dropped the compatibility options);
+// they must pass now. The last two are the witnesses of the two known findings.
+func corpus() []sCase {
+	app := func(a string) map[string]string { return map[string]string{"app": a} }
+	selfSel := func(a string) sSel { return sSel{ML: app(a)} }
+	hostSpread := []sSpread{{Key: hostKey, MaxSkew: 2, Sel: selfSel("b")}}
+	ctSpread := []sSpread{{Key: ctKey, MaxSkew: 2, MinDomains: ptr(int32(3)), Sel: selfSel("c")}}
+	zoneAff := []sTerm{{Key: zoneKey, Sel: selfSel("c")}}
+	return []sCase{
+		{Kind: "solve", Workers: 1, Pools: []sPool{{Name: "pool-a", Weight: 10}}, Batch: []sPod{
+			{Name: "b-0", NS: "ns1", Labels: app("b"), CPU: "300m", Spread: hostSpread},
+			{Name: "b-1", NS: "ns1", Labels: app("b"), CPU: "300m", Spread: hostSpread},
+			{Name: "b-2", NS: "ns1", Labels: app("b"), CPU: "300m", Spread: hostSpread, ZoneIn: []string{"z1", "z2"}},
+			{Name: "b-3", NS: "ns1", Labels: app("b"), CPU: "300m", Spread: hostSpread}}},
+		{Kind: "solve", Workers: 1, Pools: []sPool{{Name: "pool-a", Weight: 10}}, Batch: []sPod{
+			{Name: "c-0", NS: "ns2", Labels: app("c"), CPU: "1700m", Spread: ctSpread},
+			{Name: "c-1", NS: "ns2", Labels: app("c"), CPU: "1700m", Spread: ctSpread},
+			{Name: "c-2", NS: "ns2", Labels: app("c"), CPU: "1700m", Spread: ctSpread, ZoneIn: []string{"z2"}},
+			{Name: "c-3", NS: "ns2", Labels: app("c"), CPU: "1700m", Spread: ctSpread, ZoneIn: []string{"z3"}}}},
+		{Kind: "solve", Workers: 1, Pools: []sPool{{Name: "pool-a", Weight: 10}}, Batch: []sPod{
+			{Name: "c-0", NS: "ns2", Labels: app("c"), CPU: "2500m", Aff: zoneAff},
+			{Name: "c-1", NS: "ns2", Labels: app("c"), CPU: "2500m", Aff: zoneAff}}},
+		{Kind: "solve", Workers: 1, Pools: []sPool{{Name: "pool-a", Weight: 10}},
+			Nodes: []sNode{{Name: "node-0", Labels: map[string]string{hostKey: "node-0", ctKey: "on-demand", zoneKey: "z1"}}},
+			Bound: []sPod{{Name: "bound-0", NS: "ns1", Labels: app("a"), CPU: "100m", Node: "node-0", Tolerates: true}},
+			Batch: []sPod{{Name: "a-0", NS: "ns1", Labels: app("a"), CPU: "300m", Aff: []sTerm{{Key: zoneKey, Sel: sSel{Nil: true}}}}}},
+	}
 }
